@@ -200,7 +200,9 @@ fn gen_sc(rng: &mut Rng, flavour: u8) -> Sc {
     }
     keys.push("unused");
     rng.shuffle(&mut keys);
-    let japanese = rng.chance(1, 3);
+    // a later document may override the encoding (C17): the statement is then written in it
+    let enc_override: Option<&str> = if flavour == 17 && rng.chance(1, 4) { Some(*rng.pick(&["windows-1252", "Shift_JIS"])) } else { None };
+    let japanese = rng.chance(1, 3) && enc_override != Some("windows-1252");
     let label_of = |k: &str| -> String {
         let (en, ja) = match k {
             "date" => ("Date", "日付"),
@@ -234,7 +236,14 @@ fn gen_sc(rng: &mut Rng, flavour: u8) -> Sc {
     }
     let delimiter = *rng.pick(&[',', ',', '\t', ';']);
     let n_head = rng.usize(3);
-    let head_lines: Vec<String> = (0..n_head).map(|i| format!("Statement export line {}", i + 1)).collect();
+    let head_lines: Vec<String> = (0..n_head)
+        .map(|i| match rng.below(5) {
+            // a blank line, a line with delimiters and a quote, plain text
+            0 => String::new(),
+            1 => format!("Account{}123-456{}\"Okane Bank\"", delimiter, delimiter),
+            _ => format!("Statement export line {}", i + 1),
+        })
+        .collect();
     let date_fmt = rng.pick(&["%Y-%m-%d", "%Y/%m/%d", "%d.%m.%Y", "%m/%d/%Y"]).to_string();
     let new_to_old = rng.chance(1, 3);
     let layout = CsvLayout {
@@ -342,6 +351,19 @@ fn gen_sc(rng: &mut Rng, flavour: u8) -> Sc {
                 d.commodity = Some("XXX".to_string());
             }
             docs.push(d);
+        }
+        if let Some(enc) = enc_override {
+            docs.push(Doc {
+                path: "bank/okane/2024-stmt".to_string(),
+                encoding: Some(enc.to_string()),
+                account: None,
+                account_type: None,
+                operator: None,
+                commodity: None,
+                default_conversion: None,
+                format: None,
+                rewrite: Vec::new(),
+            });
         }
         if rng.chance(1, 4) {
             // an even shorter matching path that carries part of the base
@@ -453,6 +475,25 @@ fn gen_sc(rng: &mut Rng, flavour: u8) -> Sc {
         }
         statements.push(recs);
     }
+    if let Some(enc) = enc_override {
+        let e = encoding_rs::Encoding::for_label(enc.as_bytes()).expect("known encoding");
+        let ok = |t: &str| !e.encode(t).2;
+        for st in statements.iter_mut() {
+            for r in st.iter_mut() {
+                if !ok(&r.payee) {
+                    r.payee = "Cafe Zurich".to_string();
+                } else if enc == "windows-1252" && r.payee == "Migros" {
+                    r.payee = "Café Zürich".to_string();
+                }
+                if !ok(&r.note) {
+                    r.note = "note".to_string();
+                }
+                if !ok(&r.category) {
+                    r.category = "Buy".to_string();
+                }
+            }
+        }
+    }
     // ---- deliveries ----
     let mut deliveries: Vec<usize> = (0..n_stmts).collect();
     if flavour == 16 && n_stmts >= 2 && rng.chance(1, 2) {
@@ -494,6 +535,7 @@ struct Effective {
     rules: Vec<Rule>,
     precisions: BTreeMap<String, u8>,
     has_conv_columns: bool,
+    encoding: String,
     default_conv: Option<Conv>,
     has_category: bool,
     has_sec: bool,
@@ -514,6 +556,7 @@ fn effective(sc: &Sc) -> Result<Effective, &'static str> {
         rules: merged.rewrite.clone(),
         precisions: fmt.precisions.clone(),
         has_conv_columns: fmt.fields.contains_key("rate"),
+        encoding: merged.encoding.clone().unwrap_or_else(|| "UTF-8".to_string()),
         default_conv: merged.default_conversion.clone(),
         has_category: fmt.fields.contains_key("category"),
         has_sec: fmt.fields.contains_key("secondary_commodity"),
@@ -552,10 +595,19 @@ fn expected_for(e: &Effective, r: &Rec) -> Result<(CTxn, Folded), &'static str> 
 /// process 0, the shipped command line); returns process 0's result.
 fn import_statement(sc: &Sc, k: usize, out: &mut RunOut, rule_prefix: &str) -> Option<Result<Imported, String>> {
     let yaml = docs_yaml(&sc.docs);
-    let csv = render_csv(&sc.layout, &sc.statements[k]);
+    let csv_text = render_csv(&sc.layout, &sc.statements[k]);
+    // the bank writes the file in the encoding the configuration (as merged per the statement) declares
+    let enc_label = effective(sc).map(|e| e.encoding).unwrap_or_else(|_| "UTF-8".to_string());
+    let enc = encoding_rs::Encoding::for_label(enc_label.as_bytes()).unwrap_or(encoding_rs::UTF_8);
+    let (bytes, _, unmappable) = enc.encode(&csv_text);
+    if unmappable {
+        out.count("harness.statement-text-not-encodable");
+        return None;
+    }
+    let csv: Vec<u8> = bytes.into_owned();
     let mut files: BTreeMap<String, Vec<u8>> = BTreeMap::new();
     files.insert("/w/import.yml".to_string(), yaml.clone().into_bytes());
-    files.insert(sc.file.clone(), csv.clone().into_bytes());
+    files.insert(sc.file.clone(), csv.clone());
     let files = Rc::new(files);
     let no_faults = Default::default();
     let today = Date::new(2024, 6, 15);
@@ -566,7 +618,7 @@ fn import_statement(sc: &Sc, k: usize, out: &mut RunOut, rule_prefix: &str) -> O
             out.set("chunkings", crate::prng::mix(&[p.read_chunks.max as u64, p.read_chunks.seed]));
         }
         let vfs = make_vfs(&files, &no_faults, p, today);
-        let r = match import_api(&vfs, p, &yaml, &sc.file, csv.as_bytes(), okane::import::Format::Csv, out) {
+        let r = match import_api(&vfs, p, &yaml, &sc.file, &csv, okane::import::Format::Csv, out) {
             Ok(r) => r,
             Err(pi) => {
                 out.count("foreign.panic");
